@@ -15,7 +15,30 @@ Tie (H), per case (one family, one valid parameter vector):
     disturbed in between, the generator objects that served the draws recorded (np.random.RandomState, np.random.<fn>,
     scipy rvs wrapped) and compared with the translated seed table; distribution of 4000 seeded draws against the
     closed-form cdf with the DKW bound (false-alarm probability < 1e-20 per test).
+
+Histories and forms (`kind: "arrays"` and `kind: "seedhist"` cases).  In Lean every d / p / q helper is a table row, i.e. a PURE
+function of its arguments (`Gen.wrappers`, `nb2pmf_log`, ... - no state), and an integer-seeded generator draws from a FRESH
+`RandomState(seed)` at every call (`C19.seeded_generators_reproducible` holds for ANY two worlds w1, w2 - global generator state,
+operating-system entropy, other generator objects: everything earlier calls could have left behind).  The real module
+is Python with module-level names, so this is probed directly, with the closed forms as the only judge:
+  * arrays: one observation buffer / one probability buffer / one array per parameter, REFILLED IN PLACE between calls
+    (x_A, x_B, x_A through the same object; parameters A, B, A through the same objects), new views of one persistent block,
+    fresh arrays, lists refilled in place; d, p, q (and `gamma_mu_shape`, the mean/shape form used by the Gamma kernel) and
+    both `log` values interleaved; every element against the mpmath closed form at the content the containers had at call
+    time; a repeated call through the same memory must reproduce the earlier result bit for bit; results are KEPT and
+    compared again after the session.  The containers passed in are compared with their content after every call: a write into
+    one of them is a side effect and is TAGGED (`input-modified:<function>:<argument>`), not a violation - the property is about
+    values; a container whose intended content did not change is passed again without being refilled and nothing is repaired,
+    so what the write leads to shows in the values of the later calls, which are judged.  A function
+    that refuses a vectorised form at its first use is tagged, not judged (vectorised calls are not promised);
+  * seedhist: 8-20 generator calls in one process - several generators, several integer seeds (also one seed shared by different
+    generators), n = 1 and n > 1, with unseeded draws, `seed=True`, `seed=RandomState`, re-seeding of the global generator in between:
+    every call with the same (generator, parameters, n, integer seed) must return the draws of the first such call, and the single
+    draw must be the head of the block drawn with the same seed (both calls start a fresh RandomState(seed); holds for all eight
+    generators on the unchanged tree).
 """
+import copy
+import inspect
 import json
 import math
 import os
@@ -36,11 +59,17 @@ LEAN = {"module": "Pygom.Props.C19",
                      "Pygom.C19.seed_table_complete", "Pygom.C19.test_seed_decision_table", "Pygom.C19.seeded_generators_reproducible",
                      "Pygom.C19.exp_rate_parameterisation", "Pygom.C19.gamma_rate_parameterisation", "Pygom.C19.norm_sd_parameterisation",
                      "Pygom.C19.nb2pmf_is_mass", "Pygom.C19.nb_mean_size_eq_np"]}
-BUDGET = {"quick": {"dpq": 120, "seed": 40, "search": 300}, "thorough": {"dpq": 8000, "seed": 2500, "search": 2500}}
+BUDGET = {"quick": {"dpq": 120, "seed": 40, "arrays": 100, "seedhist": 400, "search": 300},
+          "thorough": {"dpq": 8000, "seed": 2500, "arrays": 2500, "seedhist": 8000, "search": 2500}}
 RULE = ("per family in {exp, gamma, norm, chisq, unif, beta, pois, binom, nbinom}: random valid parameters (rates / sds away from 1), "
         "6 arguments in the support and 4 probabilities in (0.01, 0.99), log in {False, True}, nbinom by prob and by mu, both tails; "
         "per generator: integer seeds (0 included), n = 1 and n > 1.  A d/p/q case is non-trivial when some argument has 1e-6 < cdf < "
-        "1-1e-6 and every provided function returned a number; a generator case when both seeded calls returned n draws")
+        "1-1e-6 and every provided function returned a number; a generator case when both seeded calls returned n draws.  "
+        "arrays cases: per family 20-35 vectorised d/p/q calls through buffers refilled in place (for every function: arguments A, A, B, A and parameters B, B, A through the same objects, refilled only when the content changes) (two argument sets, two parameter sets; x as "
+        "float / int ndarray, list, view; parameters as Python scalars, numpy scalars, 0-d arrays or arrays refilled in place), non-trivial when "
+        "some function accepted arrays, every accepted call returned and a buffer was re-used with changed content.  seedhist cases: 8-20 calls of "
+        "1-3 generators x 1-2 integer seeds x n in {1, n>1} with unseeded / seed=True / RandomState-seeded calls and global re-seeding in between, "
+        "non-trivial when some (generator, parameters, n, seed) was called at least twice with other calls in between and all calls returned")
 ASSUMPTIONS = ["scipy.stats d/p/q methods implement the named families (validated per case against mpmath closed forms, not proved)",
                "numpy.random.RandomState(seed) is a function of the seed alone; numpy's samplers have the named laws (DKW test per run)",
                "float arithmetic versus exact values: relative tolerance 1e-8 (references: mpmath, 30 digits)"]
@@ -193,6 +222,11 @@ def make_cases(rng, tier, budget):
     for fam in DOCUMENTED + ["nbinom"]:
         for _ in range(budget["seed"]):
             out.append(_seed_case(random.Random(rng.getrandbits(64)), fam))
+    for fam in FAMILIES:
+        for _ in range(budget.get("arrays", 0)):
+            out.append(_arrays_case(random.Random(rng.getrandbits(64)), fam))
+    for i in range(budget.get("seedhist", 0)):
+        out.append(_seedhist_case(random.Random(rng.getrandbits(64)), force=(DOCUMENTED + ["nbinom"])[i % 8] if i < 64 else None))
     return out
 
 
@@ -204,6 +238,8 @@ def search_cases(rng, tier, budget):
     for i in range(budget["search"]):
         out.append(_dpq_case(random.Random(rng.getrandbits(64)), fams_w[i % len(fams_w)]))
         out.append(_seed_case(random.Random(rng.getrandbits(64)), fams_s[i % len(fams_s)]))
+        out.append(_arrays_case(random.Random(rng.getrandbits(64)), FAMILIES[i % len(FAMILIES)]))
+        out.append(_seedhist_case(random.Random(rng.getrandbits(64))))
     return out
 
 
@@ -511,8 +547,8 @@ def _run_dpq(case):
                     curv = abs(float(mpmath.diff(lambda t: ref_pdf(fam, p, t), x, 2))) * h * h   # truncation bound of the central difference
                     if abs(fdiff - dv[1]) > 1e-4 * max(abs(dv[1]), 1e-3) + 10 * curv + 1e-12 / h:
                         violation("p" + fam, "dp/dx!=d", "(p%s(x+h)-p%s(x-h))/2h = %r but d%s(x) = %r at x=%r (%s)" % (fam, fam, fdiff, fam, dv[1], x, p))
-    # vectorised use, the same argument objects handed in twice: values must be the scalar values (which the closed
-    # forms above have judged), and no call may write into the arrays it was given
+    # vectorised use, the same argument objects handed in twice: values (of both calls) must be the scalar values, which the
+    # closed forms above have judged; a write into the arrays given is tagged (side effect), its consequence is the second call's value
     if not viol:
         _vector_reuse(distn, fam, p, case, pos, kw, violation, tags)
     return {"nontrivial": bool(nontrivial and all_numbers), "mismatches": mism, "violations": viol, "tags": tags,
@@ -546,7 +582,8 @@ def _vector_reuse(distn, fam, p, case, pos, kw, violation, tags):
         names = ["first argument"] + ["parameter %d" % (i + 1) for i in range(len(par_arrs))] + list(kw_arrs)
         for nm, a, b in zip(names, keep, now):
             if a is not None and not np.array_equal(a, b, equal_nan=True):
-                violation(kind + fam, "mutates-argument", "%s%s wrote into the array passed as %s: %s -> %s (%s)" % (kind, fam, nm, a.tolist(), b.tolist(), p))
+                # a side effect, not a wrong value: tagged; the second call above received the modified arrays, its values are judged below
+                tags.append("input-modified:%s%s:%s" % (kind, fam, nm.replace(" ", "-")))
         if isinstance(outs[0], Exception):
             tags.append("vector:unsupported:" + kind + fam)      # vectorised calls are not promised; not judged
             if not isinstance(outs[1], Exception):
@@ -724,7 +761,412 @@ def _run_seed(case):
             "sample": {"family": fam, "params": p, "seed": s, "n": case["n_many"]}}
 
 
+# ========================================================================================== histories: arrays refilled in place
+# Lean: every helper is a row of a table / a closed term (Gen.wrappers, Gen.nb2pmf_*, Gen.gamma_mu_shape_*), a pure function
+# of (x, parameters, log).  Here: the same, asked of the running module, through containers whose identity stays and whose
+# content changes.
+def _arrays_case(r, fam):
+    pA = _params(r, fam)
+    pB = _params(r, fam)
+    while fam == "nbinom" and (("mu" in pA) != ("mu" in pB)):
+        pB = _params(r, fam)
+    if len(pA) > 1 and r.random() < 0.5:
+        # the two parameter sets differ in ONE parameter only (a table keyed on part of the parameters would go stale here)
+        k = r.choice(sorted(pA))
+        cand = dict(pA); cand[k] = pB[k]
+        if cand != pA and (fam != "unif" or cand["min"] + 0.05 < cand["max"]):
+            pB = cand
+    sets = []
+    for p in (pA, pB):
+        xs = []
+        for _ in range(6):
+            x = _sample_x(r, fam, p)
+            xs.append(int(x) if fam in DISCRETE else round(float(x), 6))
+        if fam == "beta":
+            xs = [min(max(x, 0.001), 0.999) for x in xs]
+        if fam in ("exp", "gamma", "chisq"):
+            xs = [max(x, 1e-4) for x in xs]
+        sets.append(xs)
+    us = [[round(r.uniform(0.01, 0.99), 6) for _ in range(4)] for _ in range(2)]
+    x_form = r.choice(["float_array", "float_array", "int_array" if fam in DISCRETE else "float_array", "list", "column"])
+    par_form = r.choice(["scalar", "scalar", "array", "array", "npscalar", "zerod"])
+    fns = ["d", "p", "q"] + (["gms"] if fam == "gamma" else [])
+
+    def rand_op():
+        return {"fn": r.choice(fns), "log": r.random() < 0.5, "set": r.randrange(2), "pset": r.randrange(2), "via": r.choice(["buffer", "buffer", "view", "fresh"])}
+
+    ops = [rand_op() for _ in range(r.randint(3, 6))]
+    # the core history, for EVERY function of the family: arguments A, A, B, A and then parameters B, B, A through the same objects
+    core = []
+    extra = r.choice(fns)
+    for m in fns:
+        for via in (["buffer", "view"] if m == extra else ["buffer"]):
+            lg, ps = r.random() < 0.5, r.randrange(2)
+            blk = [{"fn": m, "log": lg, "set": i, "pset": ps, "via": via} for i in (0, 0, 1, 0)]       # 0 twice: passed again as it is
+            blk += [{"fn": m, "log": lg, "set": 0, "pset": j, "via": via} for j in (1 - ps, 1 - ps, ps)]
+            core.append(blk)
+    r.shuffle(core)
+    for blk in core:
+        # a block keeps its order; random other calls may fall in between
+        pos = sorted(r.randrange(len(ops) + 1) for _ in blk)
+        for off, (p_, op) in enumerate(zip(pos, blk)):
+            ops.insert(p_ + off, op)
+    return {"kind": "arrays", "family": fam, "params": [pA, pB], "xs": sets, "us": us, "x_form": x_form, "par_form": par_form, "ops": ops,
+            "scribble": r.random() < 0.3}
+
+
+def _run_arrays(case):
+    from pygom.utilR import distn
+    mpmath.mp.dps = 30
+    fam, psets = case["family"], case["params"]
+    tags = ["arrays:" + fam, "x-form:" + case["x_form"], "par-form:" + case["par_form"]] + (["caller-overwrites-results"] if case.get("scribble") else [])
+    viol, seen = [], set()
+    detail = json.dumps(case)
+
+    def violation(fn, cls, what):
+        sig = "%s:%s" % (fn, cls)
+        if sig not in seen:
+            seen.add(sig)
+            viol.append({"what": what, "signature": sig, "detail": detail})
+
+    memo, base, tabs_d = {}, {}, {}
+
+    def discrete_table(pi, upto):
+        """mass and cumulative mass 0..upto of parameter set pi (closed form, computed once per session)"""
+        t = tabs_d.setdefault(pi, {"pdf": [], "cdf": []})
+        while len(t["pdf"]) <= upto:
+            j = len(t["pdf"])
+            v = ref_pdf(fam, psets[pi], j)
+            t["pdf"].append(v)
+            t["cdf"].append(v + (t["cdf"][-1] if t["cdf"] else mpmath.mpf(0)))
+        return t
+
+    def pdf_cdf(pi, x):
+        key = (pi, x)
+        if key not in base:
+            if fam in DISCRETE:
+                k = int(math.floor(x))
+                t = discrete_table(pi, max(k, 0))
+                base[key] = (ref_pdf(fam, psets[pi], x), t["cdf"][k] if k >= 0 else mpmath.mpf(0))
+            else:
+                base[key] = (ref_pdf(fam, psets[pi], x), ref_cdf(fam, psets[pi], x))
+        return base[key]
+
+    def discrete_quantile(pi, target):
+        k = 0
+        while True:
+            t = discrete_table(pi, k)
+            if t["cdf"][k] >= target or k >= 100000:
+                break
+            k += 1
+        c = t["cdf"][k]
+        below = c - t["pdf"][k]
+        if abs(c - target) < 1e-7 or abs(below - target) < 1e-7:
+            return None                           # within rounding of a jump: either neighbour is acceptable
+        return k
+
+    def expected(fn, log, si, pi, i):
+        """closed-form value for element i (None = not judged; ('cdf', u) = judged through the closed-form cdf)"""
+        key = (fn, log, si, pi, i)
+        if key not in memo:
+            if fn == "q":
+                u = case["us"][si][i]
+                memo[key] = ("inverse", discrete_quantile(pi, u)) if fam in DISCRETE else ("cdf", u)
+            else:
+                pdf, cdf = pdf_cdf(pi, case["xs"][si][i])
+                v = pdf if fn in ("d", "gms") else cdf
+                if fn in ("d", "gms") and v <= 0:
+                    memo[key] = None
+                elif log:
+                    memo[key] = None if v <= 0 else ("value", float(mpmath.log(v)))
+                else:
+                    memo[key] = ("value", float(v))
+        return memo[key]
+
+    def real_fn(fn):
+        if fn == "gms":
+            return getattr(distn, "gamma_mu_shape", None), "gamma_mu_shape"
+        return getattr(distn, fn + fam, None), fn + fam
+
+    # parameter lists per function: R-style positional order; gamma_mu_shape(x, mu, shape) has mean = shape/rate
+    order = {"exp": ["rate"], "gamma": ["shape", "rate"], "norm": ["mean", "sd"], "chisq": ["df"], "unif": ["min", "max"],
+             "beta": ["shape1", "shape2"], "pois": ["mu"], "binom": ["size", "prob"]}
+
+    def par_values(fn, p):
+        if fn == "gms":
+            return [("mu", p["shape"] / p["rate"]), ("shape", p["shape"])], []
+        if fam == "nbinom":
+            return [("size", p["size"])], [("prob", p.get("prob")), ("mu", p.get("mu"))]
+        return [(k, p[k]) for k in order[fam]], []
+
+    # ---- the caller's persistent containers
+    nx, nu = len(case["xs"][0]), len(case["us"][0])
+    xdtype = int if case["x_form"] == "int_array" else float
+    store, filled = {}, {}
+
+    def first_container(fn, si, via):
+        vals = case["us"][si] if fn == "q" else case["xs"][si]
+        n = len(vals)
+        form = "float_array" if fn == "q" and case["x_form"] == "int_array" else case["x_form"]
+        dt = int if form == "int_array" else float
+        # a persistent container is refilled in place only when its intended content changes; otherwise the caller passes it again as
+        # it is (whatever a callee may have done to it is then visible in the values of this call)
+        if form == "list":
+            if via == "fresh":
+                return list(vals), None
+            key = ("first-list", fn == "q")
+            lst = store.setdefault(key, [])
+            if filled.get(key) != si:
+                lst[:] = list(vals)                  # the same list object, refilled in place
+            filled[key] = si
+            return lst, key
+        shape = (n, 1) if form == "column" else (n,)
+        arr = np.array(vals, dtype=dt).reshape(shape)
+        if via == "fresh":
+            return arr, None
+        if via == "buffer":
+            key = ("first-buf", fn == "q")
+            b = store.setdefault(key, np.empty(shape, dtype=dt))
+            if filled.get(key) != si:
+                b[...] = arr
+            filled[key] = si
+            return b, key
+        key = ("first-block", fn == "q")
+        blk = store.setdefault(key, np.full((3 * n,) + shape[1:], 0.5 if fn == "q" else 1, dtype=dt))
+        if filled.get(key) != si:
+            blk[n:2 * n] = arr
+        filled[key] = si
+        return blk[n:2 * n], key                    # a NEW view object over the same memory
+
+    def par_container(name, value, n, tagq):
+        if value is None:
+            return None
+        is_int = isinstance(value, int) and not isinstance(value, bool)
+        form = case["par_form"]
+        if form == "scalar":
+            return value
+        if form == "npscalar":
+            return np.int64(value) if is_int else np.float64(value)
+        if form == "zerod":
+            return np.array(value, dtype=int if is_int else float)
+        key = ("par", name, tagq)
+        shape = (n, 1) if case["x_form"] == "column" else (n,)     # per-observation parameters have the shape of the observations
+        a = store.setdefault(key, np.empty(shape, dtype=int if is_int else float))
+        if filled.get(key) != value:
+            a[...] = value                           # the same parameter array, refilled in place when the parameter changes
+        filled[key] = value
+        return a
+
+    unsupported, used_ok = set(), set()
+    kept, first_seen = [], {}
+    content, reused_changed, all_returned = {}, False, True
+    for idx, op in enumerate(case["ops"]):
+        fn, log, si, pi, via = op["fn"], bool(op["log"]), op["set"], op["pset"], op["via"]
+        f, name = real_fn(fn)
+        if f is None or name in unsupported:
+            continue
+        formals = list(inspect.signature(f).parameters)
+        if fn == "q" or (log and "log" not in formals):
+            log = False                              # quantiles of log-probabilities are covered by the scalar cases
+        p = psets[pi]
+        first, key = first_container(fn, si, via)
+        n = nu if fn == "q" else nx
+        pos_v, kw_v = par_values(fn, p)
+        pos_c = [par_container(k, v, n, fn == "q") for k, v in pos_v]
+        kw_c = {k: par_container(k, v, n, fn == "q") for k, v in kw_v}
+        if "log" in formals:
+            kw_c["log"] = log
+        if key is not None:
+            state = (si, pi if case["par_form"] == "array" else None)
+            if key in content and content[key] != state:
+                reused_changed = True
+            content[key] = state
+        snap = [copy.deepcopy(first)] + [copy.deepcopy(c) for c in pos_c] + [copy.deepcopy(c) for c in kw_c.values()]
+        label = "%s(%s%s) [operation %d: argument set %d as %s via %s, parameters %r as %s]" % (name, "x", ", log=True" if log else "", idx, si, case["x_form"], via, p, case["par_form"])
+        try:
+            with np.errstate(all="ignore"):
+                res = f(first, *pos_c, **kw_c)
+        except Exception as exc:
+            if name not in used_ok:
+                unsupported.add(name)
+                tags.append("vector:unsupported:%s:%s" % (name, type(exc).__name__))     # vectorised calls are not promised; not judged
+            else:
+                all_returned = False
+                violation(name, "raises-after-earlier-success", "%s raised %s: %s although the same kind of call succeeded earlier in the session" % (label, type(exc).__name__, str(exc)[:160]))
+            continue
+        used_ok.add(name)
+        out = np.array(res, float).ravel()
+        if case.get("scribble") and isinstance(res, np.ndarray) and res.flags.writeable:
+            res[...] = -12345.0        # a returned array is the caller's: overwriting it must not reach later calls (judged by their values)
+        else:
+            kept.append((label, name, res, copy.deepcopy(res)))
+        if out.shape != (n,):
+            all_returned = False
+            violation(name, "vector-shape", "%s returned shape %s for %d arguments" % (label, np.shape(res), n))
+            continue
+        # ---- every element against the closed form at the content the containers had when the call was made
+        bad = []
+        for i in range(n):
+            e = expected(fn, log, si, pi, i)
+            g = float(out[i])
+            if e is None or e[1] is None:
+                continue
+            if e[0] == "value":
+                ok = _close(g, e[1])
+            elif e[0] == "inverse":
+                ok = _close(g, e[1])
+            else:
+                ok = (not math.isnan(g)) and abs(float(ref_cdf(fam, p, g)) - e[1]) <= 1e-8
+            if not ok:
+                bad.append((i, g, e[1]))
+        if bad:
+            # classification only: the same call with new containers holding the intended content
+            hist = False
+            try:
+                f1 = first_container(fn, si, "fresh")[0]
+                shape_ = (n, 1) if case["x_form"] == "column" else (n,)
+                def fresh_par(v, c):
+                    return np.full(shape_, v, dtype=np.asarray(c).dtype) if isinstance(c, np.ndarray) and np.ndim(c) > 0 else copy.deepcopy(c)
+                with np.errstate(all="ignore"):
+                    again = np.asarray(f(f1, *[fresh_par(v, c) for (_, v), c in zip(pos_v, pos_c)],
+                                         **dict({k: fresh_par(v, kw_c[k]) for k, v in kw_v}, **({"log": log} if "log" in formals else {}))), float).ravel()
+                hist = not np.array_equal(again, out, equal_nan=True)
+            except Exception:
+                pass
+            i, g, e = bad[0]
+            violation(name, "history-dependent" if hist else "vector-value",
+                      "%s: element %d is %r but the closed form %s %r%s" % (label, i, g, "requires cdf(q) =" if fn == "q" and fam not in DISCRETE else "gives", e,
+                                                                             "; the same call with fresh copies of its arguments returns something else: the value depends on earlier calls / on the identity of the containers" if hist else ""))
+        # ---- same memory, same content: bit for bit the earlier result
+        if key is not None:
+            k2 = (name, log, si, pi, via, case["par_form"] == "array")
+            if k2 in first_seen:
+                if not np.array_equal(first_seen[k2][1], out, equal_nan=True):
+                    violation(name, "not-reproduced", "%s = %s but the identical call at operation %d gave %s" % (label, out.tolist(), first_seen[k2][0], first_seen[k2][1].tolist()))
+            else:
+                first_seen[k2] = (idx, out.copy())
+        # ---- the containers are the caller's.  A write into one of them is a side effect: TAGGED, not a violation; nothing is repaired,
+        #      so the calls that receive the same containers again show (in their values) what it leads to
+        now = [first] + pos_c + list(kw_c.values())
+        names = ["first-argument"] + [k for k, _ in pos_v] + list(kw_c)
+        for nm, a, b in zip(names, snap, now):
+            same = np.array_equal(np.asarray(a), np.asarray(b), equal_nan=False) if not (a is None or isinstance(a, bool)) else a is b or a == b
+            if not same:
+                tags.append("input-modified:%s:%s" % (name, nm))
+    for label, name, res, snap in kept:
+        if not np.array_equal(np.asarray(res), np.asarray(snap), equal_nan=True):
+            violation(name, "kept-result-changed", "the result of %s was %s when returned and is %s after later calls" % (label, np.asarray(snap).tolist(), np.asarray(res).tolist()))
+    if used_ok:
+        tags.append("vector")
+    return {"nontrivial": bool(used_ok and all_returned and reused_changed), "mismatches": [], "violations": viol, "tags": tags,
+            "sample": {"kind": "arrays", "family": fam, "x_form": case["x_form"], "par_form": case["par_form"], "ops": len(case["ops"])}}
+
+
+# ========================================================================================== histories: seeded generators
+def _seedhist_case(r, force=None):
+    gens = DOCUMENTED + ["nbinom"]
+    fams = [force] if force else []
+    for f in r.sample(gens, r.choice([1, 2, 3])):
+        if f not in fams:
+            fams.append(f)
+    seeds = [r.choice([0, 1, 2, 7, 12345, r.randint(0, 2 ** 31 - 1)])]
+    if r.random() < 0.6:
+        seeds.append(r.choice([0, 3, r.randint(0, 2 ** 31 - 1)]))
+    n_many = r.choice([2, 3, 5, 17])
+    pars = {f: _params(r, f) for f in fams}
+    keys = [{"family": f, "params": pars[f], "n": n, "seed": s} for f in fams for s in seeds for n in (1, n_many)]
+    r.shuffle(keys)
+    keys = keys[:r.randint(2, 6)]
+    # the single draws are the ones simulation loops ask for: always present for the first family
+    single = {"family": fams[0], "params": pars[fams[0]], "n": 1, "seed": seeds[0]}
+    block = {"family": fams[0], "params": pars[fams[0]], "n": n_many, "seed": seeds[0]}
+    calls = [dict(k) for k in keys for _ in range(2)] + [dict(single) for _ in range(3)] + [dict(block)]
+    r.shuffle(calls)
+    noise = []
+    for _ in range(r.randint(1, 5)):
+        f = r.choice(fams)
+        kind = r.choice(["none", "true", "state", "reseed"])
+        if kind == "reseed":
+            noise.append({"reseed": r.randint(0, 10 ** 6), "burn": r.randint(0, 5)})
+        else:
+            noise.append({"family": f, "params": pars[f], "n": r.choice([1, n_many]), "seed": {"none": None, "true": "True", "state": {"state": r.randint(0, 10 ** 6)}}[kind]})
+    for x in noise:
+        calls.insert(r.randrange(1, len(calls)), x)
+    return {"kind": "seedhist", "calls": calls, "scribble": r.random() < 0.4}
+
+
+def _run_seedhist(case):
+    from pygom.utilR import distn
+    tags = ["seedhist"]
+    viol, seen = [], set()
+    detail = json.dumps(case)
+
+    def violation(fn, cls, what):
+        sig = "%s:%s" % (fn, cls)
+        if sig not in seen:
+            seen.add(sig)
+            viol.append({"what": what, "signature": sig, "detail": detail})
+
+    firsts, heads, repeated, all_ok = {}, {}, False, True
+    last_key = None
+    for idx, c in enumerate(case["calls"]):
+        if "reseed" in c:
+            np.random.seed(c["reseed"]); np.random.random(c["burn"])
+            last_key = None
+            continue
+        fam, p, n, sd = c["family"], c["params"], int(c["n"]), c["seed"]
+        f = getattr(distn, "r" + fam, None)
+        if f is None:
+            return {"nontrivial": False, "mismatches": [{"what": "missing:r" + fam, "detail": ""}], "violations": [], "tags": tags}
+        pos, kw = _call_args(fam, p)
+        judged = isinstance(sd, int) and not isinstance(sd, bool)
+        seed_arg = sd if judged or sd is None else (True if sd == "True" else np.random.RandomState(sd["state"]))
+        label = "r%s(%d, %s, seed=%s) [call %d of the session]" % (fam, n, ", ".join("%s=%r" % kv for kv in p.items()), sd, idx)
+        try:
+            a = f(n, *pos, seed=seed_arg, **kw)
+        except Exception as exc:
+            if judged:
+                all_ok = False
+                violation("r" + fam, "raises", "%s raised %s: %s" % (label, type(exc).__name__, str(exc)[:120]))
+            continue
+        if not judged:
+            tags.append("noise:" + ("unseeded" if sd is None else "true" if sd == "True" else "state"))
+            last_key = None
+            continue
+        tags.append("seed:" + fam)
+        if a is None or np.size(a) != n or (n == 1 and np.ndim(a) != 0):
+            all_ok = False
+            violation("r" + fam, "stub" if a is None else "shape", "%s returned %r" % (label, None if a is None else np.shape(a)))
+            continue
+        res, a = a, np.asarray(a).copy()
+        if case.get("scribble") and isinstance(res, np.ndarray) and res.flags.writeable:
+            res[...] = 0               # the block of draws is the caller's to overwrite; a later call must not hand it out again
+        key = json.dumps([fam, p, n, sd], sort_keys=True)
+        if key in firsts:
+            if last_key != key:
+                repeated = True
+            if not np.array_equal(firsts[key][1], a):
+                violation("r" + fam, "same-seed-differs-after-history",
+                          "%s gave %s but call %d with the same generator, parameters, n and integer seed gave %s" % (label, a.tolist(), firsts[key][0], firsts[key][1].tolist()))
+        else:
+            firsts[key] = (idx, a)
+        # the single draw is the head of the block: both start a fresh RandomState(seed) (unchanged tree: all eight generators)
+        hk = json.dumps([fam, p, sd], sort_keys=True)
+        head = float(a.ravel()[0])
+        if hk in heads and heads[hk][1] != head and (heads[hk][2] == 1) != (n == 1):
+            violation("r" + fam, "single-draw-differs-from-block-head",
+                      "%s starts with %r but call %d (n = %d, same generator, parameters and integer seed) started with %r" % (label, head, heads[hk][0], heads[hk][2], heads[hk][1]))
+        heads.setdefault(hk, (idx, head, n))
+        last_key = key
+    return {"nontrivial": bool(all_ok and repeated), "mismatches": [], "violations": viol, "tags": sorted(set(tags)),
+            "sample": {"kind": "seedhist", "calls": len(case["calls"])}}
+
+
 def run_case(case):
     if case["kind"] == "dpq":
         return _run_dpq(case)
+    if case["kind"] == "arrays":
+        return _run_arrays(case)
+    if case["kind"] == "seedhist":
+        return _run_seedhist(case)
     return _run_seed(case)
